@@ -97,6 +97,7 @@ type Engine struct {
 	prefs       []*Term // soft preferences for counterexample models (ndPrefer)
 	siteIDs     map[ssa.Instruction]int
 	joinMerge   bool
+	loopObl     string
 	rpoCache    map[*ssa.Function][]int
 	liveCache   map[*ssa.Function][]map[ssa.Value]bool
 	JoinMerges  int
@@ -947,6 +948,13 @@ func (pc *pathCtx) enterBlock(it *item) bool {
 counted:
 	if it.fr.loops[blk.Index] > e.cfg.Unroll+1 {
 		if e.lazyBranch && e.solver.Check(append(append([]*Term(nil), it.st.pc...), e.exclude...)) == Unsat {
+			e.PathsEnded++
+			return false
+		}
+		if e.loopObl != "" {
+			// the harness bounds its input so that no loop of the code under test needs this many
+			// iterations: a feasible path that gets here iterates independently of the input size
+			e.checkObligation(it.st, "assert", e.loopObl, fmt.Sprintf("%s block %d", it.fr.fn, blk.Index), True)
 			e.PathsEnded++
 			return false
 		}
